@@ -50,6 +50,8 @@ def rule_TR1(rep, prog, q, ts):
         newly_enq = (t.old.k0 & ENQ) == ENQ and (t.sets(q.ENQUEUED) or t.sets(q.ENQUEUED_ON_MGR) or any(m and (m & ~ENQ) == 0 for m in t.new.someset))
         if not (acq or newly_enq):
             continue
+        if t.origin == "_dispatch_queue_try_acquire_barrier_sync_and_suspend" and t.old.eq_exprs:
+            continue      # compare-exchange from exactly the idle value (no suspend bits): shape checked by C02-TR2
         rep.saw(t.fn)
         delta = q.SUSPEND_INTERVAL if any(a[0] == "-" and a[3] == q.SUSPEND_INTERVAL for a in t.new.arith) else 0
         ok = t.old.uhi - delta < q.NEEDS_ACTIVATION and t.old.ulo >= delta
@@ -284,6 +286,26 @@ def run(rep, tier="quick", srcdir=None, only=None):
         rule_AI3(rep, prog, q, ex)
     if want("C06-MP4"):
         rule_MP4(rep, prog, q, ex)
+
+
+def run_thorough(rep, srcdir=None, only=None):
+    """cross-check: the universal (for-all-transitions) rules are re-evaluated on the module built WITH the always-inliner, where every
+    inlined copy of a state transition appears in its caller's context (constant arguments folded, caller guards visible)"""
+    if only:
+        return
+    facts = build.facts_for("all", mode="all", srcdir=srcdir)
+    prog = ir.Program(facts)
+    q = Q(srcdir)
+    ex = trans.Extractor(prog, "thorough")
+    ex.compute_argbits()
+    ts = []
+    for fn in sorted(prog.all_functions(), key=lambda f: f.name):
+        ts.extend(ex.transitions(fn, DQ_STATE, plain=True))
+    rep.extra["inlined_form_transitions"] = len(ts)
+    n0 = len(rep.findings)
+    sub = report_sub(rep)
+    rule_TR1(sub, prog, q, ts)
+    merge_sub(rep, sub, 'C06-TR1i', 'C06-TR1 re-evaluated on the fully inlined modules')
 
 
 MANIFEST = {
